@@ -235,9 +235,18 @@ func trunc(s string, n int) string {
 func cmdDump(args []string) {
 	fs := flag.NewFlagSet("dump", flag.ExitOnError)
 	probes := fs.Bool("probes", true, "")
+	known := fs.String("known", "", "write the list of known type names to this file")
 	fs.Parse(args)
-	b, _ := json.Marshal(corpus.AllStatic(*probes))
+	files := corpus.AllStatic(*probes)
+	for _, f := range files {
+		f.Canon()
+	}
+	b, _ := json.Marshal(files)
 	os.Stdout.Write(b)
+	if *known != "" {
+		kb, _ := json.Marshal(corpus.KnownTypes(files))
+		os.WriteFile(*known, kb, 0o644)
+	}
 }
 
 var _ = protoreflect.FullName("")
